@@ -294,21 +294,21 @@ Proof.
     apply (Permutation_NoDup (Permutation_map fst Hp1) Hnd).
 Qed.
 
-(** the keys of [kvs], in list order, are the strings [ss] (named or plain
-    string types alike: Value.String() returns the contents of either) *)
-Definition key_str_of (k : gv) : option str :=
-  match k with VStr _ s => Some s | _ => None end.
+(** the keys of [kvs], in list order, print as the texts [ss] (a string key —
+    named or plain — as its contents, an unnamed integer or boolean as
+    fmt.Sprint prints it, the nil interface as the empty text) *)
+Definition key_str_of (k : gv) : option str := key_sort_text k.
 
 Definition str_keys (kvs : list (gv * gv)) (ss : list str) : Prop :=
-  map (fun kv => key_str_of (fst kv)) kvs = map Some ss.
+  map (fun kv => key_sort_text (fst kv)) kvs = map Some ss.
 
 Definition sv_entry : gv * gv -> option (str * gv) :=
-  fun '(k, v) => match k with VStr _ s => Some (s, v) | _ => None end.
+  fun '(k, v) => match key_sort_text k with Some s => Some (s, v) | None => None end.
 
 Lemma sorted_values_unfold kvs :
   sorted_values kvs =
   match all_some (map sv_entry kvs) with
-  | Some l => Some (map snd (fold_right insert_kv [] l))
+  | Some l => if str_nodupb (map fst l) then Some (map snd (fold_right insert_kv [] l)) else None
   | None => None
   end.
 Proof. reflexivity. Qed.
@@ -316,14 +316,31 @@ Proof. reflexivity. Qed.
 Lemma all_some_map_some {A} (xs : list A) : all_some (map Some xs) = Some xs.
 Proof. induction xs as [|x xs IH]; cbn [map all_some]; [reflexivity|]. rewrite IH. reflexivity. Qed.
 
+Lemma c11_str_mem_In s l : str_mem s l = true <-> In s l.
+Proof.
+  induction l as [|x l IH]; cbn [str_mem In]; [split; [discriminate | intros []]|].
+  rewrite orb_true_iff, IH. split; intros [H|H]; auto.
+  - left. symmetry. apply c11_str_eqb_eq. exact H.
+  - left. subst x. apply c11_str_eqb_refl.
+Qed.
+
+(** the boolean test of the model is NoDup *)
+Lemma str_nodupb_NoDup l : str_nodupb l = true <-> NoDup l.
+Proof.
+  induction l as [|x l IH]; cbn [str_nodupb]; [split; [constructor | reflexivity]|].
+  rewrite andb_true_iff, negb_true_iff, IH, NoDup_cons_iff. split; intros [Hx Hl]; split; try exact Hl.
+  - intros Hin. apply c11_str_mem_In in Hin. rewrite Hin in Hx. discriminate Hx.
+  - destruct (str_mem x l) eqn:E; [|reflexivity]. exfalso. apply Hx, c11_str_mem_In. exact E.
+Qed.
+
 Lemma str_keys_entries kvs ss :
   str_keys kvs ss -> exists l, map sv_entry kvs = map Some l /\ map fst l = ss.
 Proof.
   unfold str_keys. revert ss. induction kvs as [|[k v] r IH]; intros [|s ss] H; cbn [map] in H; try discriminate H.
   - exists []. split; reflexivity.
   - injection H as Hk Hr. destruct (IH ss Hr) as (l & Hl & Hf).
-    destruct k; cbn [fst key_str_of] in Hk; try discriminate Hk. injection Hk as ->.
-    exists ((s, v) :: l). cbn [map sv_entry fst]. rewrite Hl, Hf. split; reflexivity.
+    cbn [fst] in Hk.
+    exists ((s, v) :: l). cbn [map sv_entry fst]. rewrite Hk, Hl, Hf. split; reflexivity.
 Qed.
 
 Theorem sorted_values_perm : forall kvs kvs' ss,
@@ -335,32 +352,86 @@ Proof.
   pose proof (Permutation_map sv_entry Hp) as Hpm. rewrite Hl in Hpm.
   destruct (@Permutation_map_inv _ _ Some (map sv_entry kvs') l (Permutation_sym Hpm)) as (l' & Hl' & Hpl).
   rewrite !sorted_values_unfold, Hl, Hl', !all_some_map_some.
-  rewrite (insertion_sort_perm l l'); [reflexivity | exact Hpl | rewrite Hf; exact Hnd].
+  assert (Hnl : NoDup (map fst l)) by (rewrite Hf; exact Hnd).
+  assert (Hnl' : NoDup (map fst l')) by (apply (Permutation_NoDup (Permutation_map fst Hpl) Hnl)).
+  apply str_nodupb_NoDup in Hnl'. pose proof Hnl as Hnb. apply str_nodupb_NoDup in Hnb. rewrite Hnb, Hnl'.
+  rewrite (insertion_sort_perm l l'); [reflexivity | exact Hpl | exact Hnl].
 Qed.
 
 (** ... and it is defined: the model does not decline such a map *)
-Lemma sorted_values_defined kvs ss : str_keys kvs ss -> exists vs, sorted_values kvs = Some vs.
+Lemma sorted_values_defined kvs ss : str_keys kvs ss -> NoDup ss -> exists vs, sorted_values kvs = Some vs.
 Proof.
-  intros Hk. destruct (str_keys_entries kvs ss Hk) as (l & Hl & _).
-  rewrite sorted_values_unfold, Hl, all_some_map_some. eexists; reflexivity.
+  intros Hk Hnd. destruct (str_keys_entries kvs ss Hk) as (l & Hl & Hf).
+  rewrite sorted_values_unfold, Hl, all_some_map_some.
+  rewrite <- Hf in Hnd. apply str_nodupb_NoDup in Hnd. rewrite Hnd. eexists; reflexivity.
 Qed.
 
-(** the hypothesis in the form "all keys are strings, pairwise different" *)
+(** ... and only such a map: the model answers exactly when every key has a
+    modelled printed form and the forms are pairwise different *)
+Lemma sorted_values_defined_iff kvs :
+  (exists vs, sorted_values kvs = Some vs) <-> (exists ss, str_keys kvs ss /\ NoDup ss).
+Proof.
+  split.
+  - intros [vs H]. rewrite sorted_values_unfold in H.
+    destruct (all_some (map sv_entry kvs)) as [l|] eqn:El; [|discriminate H].
+    destruct (str_nodupb (map fst l)) eqn:En; [|discriminate H].
+    exists (map fst l). split; [|apply str_nodupb_NoDup; exact En].
+    unfold str_keys. clear H En. revert l El. induction kvs as [|[k v] r IH]; intros l El; cbn [map all_some] in El.
+    + injection El as <-. reflexivity.
+    + cbn [sv_entry] in El. destruct (key_sort_text k) as [s|] eqn:Ek; [|discriminate El].
+      destruct (all_some (map sv_entry r)) as [l0|]; [|discriminate El]. injection El as <-.
+      cbn [map fst]. rewrite Ek, (IH l0 eq_refl). reflexivity.
+  - intros (ss & Hk & Hnd). exact (sorted_values_defined kvs ss Hk Hnd).
+Qed.
+
+(** the hypothesis in the form "every key has a printed form": strings,
+    unnamed integers and booleans, the nil interface *)
 Lemma str_keys_intro kvs :
+  Forall (fun kv => key_sort_text (fst kv) <> None) kvs ->
+  exists ss, str_keys kvs ss.
+Proof.
+  unfold str_keys. induction 1 as [|[k v] r Hk _ (ss & IH)]; [exists []; reflexivity|].
+  cbn [fst] in Hk. destruct (key_sort_text k) as [s|] eqn:Ek; [|contradiction Hk; reflexivity].
+  exists (s :: ss). cbn [map fst]. rewrite Ek, IH. reflexivity.
+Qed.
+
+(** ... and in the form "all keys are strings" *)
+Lemma str_keys_intro_strings kvs :
   Forall (fun kv => exists n s, fst kv = VStr n s) kvs ->
   exists ss, str_keys kvs ss.
 Proof.
-  unfold str_keys. induction 1 as [|[k v] r (n & s & Hk) _ (ss & IH)]; [exists []; reflexivity|].
-  cbn [fst] in Hk. subst k. exists (s :: ss). cbn [map fst key_str_of]. rewrite IH. reflexivity.
+  intros H. apply str_keys_intro. apply (Forall_impl _ (P := fun kv => exists n s, fst kv = VStr n s)); [|exact H].
+  intros kv (n & s & E). rewrite E. discriminate.
 Qed.
 
-(** without distinctness the order does show (Go maps cannot hold two equal
-    keys of one type, but a map[any]V can hold a string and a named string
-    with equal contents) *)
+(** two keys that print alike — Go maps cannot hold two equal keys of one
+    type, but a map[any]V can hold a string and a named string with equal
+    contents, or the number 1 and the string "1": Go orders those by the name
+    of the type; the model, which does not carry type names, declines *)
 Example sorted_values_needs_distinct :
   let kvs := [ (VStr false (bs "k"), VInt KInt false 1); (VStr true (bs "k"), VInt KInt false 2) ] in
-  sorted_values kvs <> sorted_values (rev kvs).
-Proof. vm_compute. intros H. discriminate H. Qed.
+  sorted_values kvs = None /\ sorted_values (rev kvs) = None.
+Proof. vm_compute. split; reflexivity. Qed.
+
+Example sorted_values_declines_alike :
+  sorted_values [ (VInt KInt false 1, VStr false (bs "x")); (VStr false (bs "1"), VStr false (bs "y")) ] = None.
+Proof. vm_compute. reflexivity. Qed.
+
+(** keys of several kinds in one map[any]V: both iteration orders give the
+    values in the order of the printed keys, "" < "10" < "9" < "b" < "true" *)
+Example sorted_values_mixed_keys :
+  let kvs := [ (VInt KInt false 10, VStr false (bs "ten"));
+               (VStr false (bs "b"), VStr false (bs "bee"));
+               (VBool false true, VStr false (bs "yes"));
+               (VInt KInt false 9, VStr false (bs "nine"));
+               (VNil, VStr false (bs "nil")) ] in
+  let sorted := [ VStr false (bs "nil"); VStr false (bs "ten"); VStr false (bs "nine");
+                  VStr false (bs "bee"); VStr false (bs "yes") ] in
+  sorted_values kvs = Some sorted /\ sorted_values (rev kvs) = Some sorted /\
+  map (fun kv => key_sort_text (fst kv)) kvs =
+    [ Some (bs "10"); Some (bs "b"); Some (bs "true"); Some (bs "9"); Some (bs "") ] /\
+  (str_ltb (bs "") (bs "10") && str_ltb (bs "10") (bs "9") && str_ltb (bs "9") (bs "b") && str_ltb (bs "b") (bs "true"))%bool = true.
+Proof. vm_compute. repeat split; reflexivity. Qed.
 
 (* ------------------------------------------------------------------ *)
 (** * A4. removeKeysBy: the output is the input filtered, in the input's
@@ -726,7 +797,11 @@ Print Assumptions str_ltb_total.
 Print Assumptions insertion_sort_perm.
 Print Assumptions sorted_values_perm.
 Print Assumptions sorted_values_defined.
+Print Assumptions sorted_values_defined_iff.
+Print Assumptions str_keys_intro.
 Print Assumptions sorted_values_needs_distinct.
+Print Assumptions sorted_values_declines_alike.
+Print Assumptions sorted_values_mixed_keys.
 Print Assumptions remove_keys_spec_gen.
 Print Assumptions remove_keys_spec.
 Print Assumptions remove_keys_perm.
